@@ -134,7 +134,7 @@ def split_top(s: str, sep: str = ','):
 def norm(s: str) -> str:
     """Whitespace-insensitive normal form of a code fragment."""
     s = re.sub(r'\s+', ' ', s).strip()
-    s = re.sub(r'\s*([(){}\[\],;:<>=&|!+\-*/.?])\s*', r'\1', s)
+    s = re.sub(r'\s*([(){}\[\],;:<>=&|!+\-*/.?%])\s*', r'\1', s)
     return s
 
 
